@@ -1,140 +1,20 @@
 ------------------------------ MODULE OTLRepack ------------------------------
-(* The offset-overflow resolution loop of BaseTTXConverter.compile (otBase.py) with
-   tryResolveOverflow, fixLookupOverFlows, fixSubTableOverFlows and the split* functions
-   (otTables.py), as a state machine over a STRUCTURAL SUMMARY of a GSUB/GPOS lookup list.
-
-   lookups : Seq(Lookup)        Lookup = [ext |-> promoted to an Extension lookup, st |-> Seq(Sub)]
-   Sub = [k   |-> kind: "lig" "alt" "mult" (one item table per covered glyph, Coverage sorted last for
-                  lig/alt), "pair1" (PairPos format 1), "sp2" (SinglePos format 2), "pair2" (PairPos
-                  format 2, items = Class1Records), "mkb" (MarkBasePos, items = mark classes), "fix"
-                  (every type without a split function),
-          ds  |-> DontShare on the object fixSubTableOverFlows looks at (the Extension record once promoted),
-          dsi |-> DontShare on the wrapped subtable (meaningful only in an Extension lookup),
-          it  |-> item ids in the order in which the subtable is compiled,
-          nm  |-> (lig/alt/mult) the same ids in the order of sorted(glyph NAMES), which is the order the
-                  split functions cut in (named deviation SplitInNameOrder: itemIndex counts in glyph-ID order),
-          cm  |-> (pair2) <<glyph, class1>> of every Coverage glyph, (mkb) <<mark glyph, mark class>>]
-   An overflow record is [L, S, name, idx] = LookupListIndex, SubTableIndex, itemName, itemIndex as in
-   OverflowErrorRecord (0-based; -1 for None, "" for None).
+(* The offset-overflow resolution loop of BaseTTXConverter.compile (otBase.py) as a state machine over
+   the structural summary of a lookup list (OTLResolve): RepackerState PURE_FT / HB_FT / FT_FALLBACK,
+   Attempt, Overflow(record), resolution by DontShare / subtable split / extension promotion, fallback,
+   Return / Raise.  The packing outcome of an attempt comes from OTLGraph!Pack applied to GraphOf(lookups)
+   (model checking) or from the recorded run (trace validation: the *With actions take it as argument).
 
    Named deviations of the code that the specification states explicitly:
      GuardByIdentity   tryResolveOverflow's "same record as last time" test compares OverflowErrorRecord
                        objects, which define no __eq__: it can never fire (SameRecordTwice is never enabled).
-     HBAtLeastFT       (assumption) hb.repack succeeds whenever the pure-Python packer would.
-   The packing outcome itself comes from OTLGraph!Pack applied to GraphOf(lookups).                  *)
-EXTENDS OTLGraph
+     HBAtLeastFT       (assumption) hb.repack succeeds whenever the pure-Python packer would.            *)
+EXTENDS OTLGraph, OTLResolve
 
 CONSTANTS ItemSz(_, _),      \* size (units) of item id of a subtable of kind k
-          HeadSz(_),         \* own size of a subtable of kind k (pair2 / fix: plus the sizes of its items, which are inline)
+          HeadSz(_),         \* own size of a subtable of kind k (pair2 / fix / sp2: plus the sizes of its inline items)
           Denote(_),         \* what a lookup list means (OTLSem), for DenotationPreserved
-          Limits, HBMode     \* 16-bit limit record; HBMode in {"off", "on"} = which RepackerState compile starts in
-
-None == -1
-Min2(a, b) == IF a <= b THEN a ELSE b
-Take(s, n) == SubSeq(s, 1, Min2(n, Len(s)))
-Drop(s, n) == SubSeq(s, Min2(n, Len(s)) + 1, Len(s))
-InsertAt(s, i, x) == SubSeq(s, 1, i) \o <<x>> \o SubSeq(s, i + 1, Len(s))     \* x becomes element i+1
-LigLike(k) == k \in {"lig", "alt", "mult"}
-ItemTable(k) == IF k = "lig" THEN "LigatureSet" ELSE IF k = "alt" THEN "AlternateSet" ELSE "Sequence"
-
------------------------------------------------------------------------------
-(* split*: result [ok, crash, old, new]; crash = an exception other than a clean "cannot split" *)
-NoSplit(s) == [ok |-> FALSE, crash |-> FALSE, old |-> s, new |-> s]
-Crash(s) == [ok |-> FALSE, crash |-> TRUE, old |-> s, new |-> s]
-Fresh(s) == [s EXCEPT !.ds = FALSE, !.dsi = FALSE]
-
-(* splitMultipleSubst / splitAlternateSubst / splitLigatureSubst: sorted(mapping.items()) is cut at newLen *)
-SplitLigLike(s, rec) ==
-  LET n == Len(s.it)
-      newLen == IF rec.name \in {"Coverage", "RangeRecord"} THEN n \div 2
-                ELSE IF rec.name = ItemTable(s.k) THEN rec.idx - 1
-                ELSE -2                                   \* newLen unbound: UnboundLocalError
-  IN IF newLen < 0 THEN Crash(s)                          \* (-1: range(-1, n) revisits the last key: KeyError)
-     ELSE LET keep == {s.nm[i] : i \in 1..Min2(newLen, n)}
-          IN [ok |-> TRUE, crash |-> FALSE,
-              old |-> [s EXCEPT !.it = SelectSeq(s.it, LAMBDA x : x \in keep), !.nm = Take(s.nm, newLen)],
-              new |-> Fresh([s EXCEPT !.it = SelectSeq(s.it, LAMBDA x : x \notin keep), !.nm = Drop(s.nm, newLen)])]
-
-(* splitPairPos format 1 / splitSinglePos format 2: the Coverage list is cut in halves *)
-SplitHalf(s) ==
-  IF Len(s.it) <= 1 THEN NoSplit(s)
-  ELSE LET oc == Len(s.it) \div 2
-       IN [ok |-> TRUE, crash |-> FALSE, old |-> [s EXCEPT !.it = Take(s.it, oc)], new |-> Fresh([s EXCEPT !.it = Drop(s.it, oc)])]
-
-(* splitPairPos format 2: class numbers >= oldCount move and are renumbered v - oldCount (class oldCount
-   becomes the new subtable's class 0, expressed through its Coverage); the old half is set DontShare *)
-SplitClasses(s, inExt) ==
-  IF Len(s.it) <= 1 THEN NoSplit(s)
-  ELSE LET oc == Len(s.it) \div 2
-           lo == SelectSeq(s.cm, LAMBDA e : e[2] < oc)
-           hi == SelectSeq(s.cm, LAMBDA e : e[2] >= oc)
-       IN [ok |-> TRUE, crash |-> FALSE,
-           old |-> [s EXCEPT !.it = Take(s.it, oc), !.cm = lo, !.ds = IF inExt THEN @ ELSE TRUE, !.dsi = IF inExt THEN TRUE ELSE @],
-           new |-> Fresh([s EXCEPT !.it = Drop(s.it, oc), !.cm = [i \in 1..Len(hi) |-> <<hi[i][1], hi[i][2] - oc>>]])]
-
-(* splitMarkBasePos: mark classes >= classCount // 2 move (renumbered), BaseCoverage stays shared *)
-SplitMarks(s) ==
-  IF Len(s.it) < 2 THEN NoSplit(s)
-  ELSE LET oc == Len(s.it) \div 2
-           lo == SelectSeq(s.cm, LAMBDA e : e[2] < oc)
-           hi == SelectSeq(s.cm, LAMBDA e : e[2] >= oc)
-       IN [ok |-> TRUE, crash |-> FALSE,
-           old |-> [s EXCEPT !.it = Take(s.it, oc), !.cm = lo],
-           new |-> Fresh([s EXCEPT !.it = Drop(s.it, oc), !.cm = [i \in 1..Len(hi) |-> <<hi[i][1], hi[i][2] - oc>>]])]
-
-Split(s, rec, inExt) ==
-  IF LigLike(s.k) THEN SplitLigLike(s, rec)
-  ELSE IF s.k \in {"pair1", "sp2"} THEN SplitHalf(s)
-  ELSE IF s.k = "pair2" THEN SplitClasses(s, inExt)
-  ELSE IF s.k = "mkb" THEN SplitMarks(s)
-  ELSE NoSplit(s)                                        \* splitTable has no entry: "Don't know how to split"
-
------------------------------------------------------------------------------
-(* results of the fix* functions: [ok, crash, lk (the lookup list afterwards), how] *)
-Res(ok, crash, lk, how) == [ok |-> ok, crash |-> crash, lk |-> lk, how |-> how]
-ValidSite(lk, rec) == /\ rec.L >= 0 /\ rec.L < Len(lk)
-                      /\ rec.S = None \/ (rec.S >= 0 /\ rec.S < Len(lk[rec.L + 1].st))
-
-(* fixSubTableOverFlows *)
-FixSub(lk, rec) ==
-  IF ~ValidSite(lk, rec) \/ rec.S = None THEN Res(FALSE, TRUE, lk, "crash")
-  ELSE LET L == rec.L + 1
-           S == rec.S + 1
-           s == lk[L].st[S]
-       IN IF ~s.ds THEN Res(TRUE, FALSE, [lk EXCEPT ![L].st[S].ds = TRUE], "dontshare")
-          ELSE LET r == Split(s, rec, lk[L].ext)
-               IN IF r.crash THEN Res(FALSE, TRUE, lk, "crash")
-                  ELSE IF ~r.ok THEN Res(FALSE, FALSE, lk, "nosplit")
-                  ELSE Res(TRUE, FALSE, [lk EXCEPT ![L].st = InsertAt([@ EXCEPT ![S] = r.old], S, r.new)], "split")
-
-(* fixLookupOverFlows: promote the lookup of the record (the PREVIOUS one for a LookupList offset), or the
-   nearest earlier lookup that is not yet an Extension lookup, and every lookup after it *)
-RECURSIVE FirstNonExt(_, _)
-FirstNonExt(lk, i) == IF i < 1 THEN 0 ELSE IF lk[i].ext THEN FirstNonExt(lk, i - 1) ELSE i
-Promote(l) == [ext |-> TRUE, st |-> [j \in 1..Len(l.st) |-> [l.st[j] EXCEPT !.dsi = l.st[j].ds, !.ds = FALSE]]]
-FixLookup(lk, rec) ==
-  IF rec.L = None \/ rec.L >= Len(lk) THEN Res(FALSE, TRUE, lk, "crash")
-  ELSE LET start == (IF rec.S = None THEN rec.L - 1 ELSE rec.L) + 1          \* 1-based
-           from == FirstNonExt(lk, start)
-       IN IF start < 1 \/ from = 0 THEN Res(FALSE, FALSE, lk, "nopromote")
-          ELSE LET new == [j \in 1..Len(lk) |-> IF j >= from /\ ~lk[j].ext THEN Promote(lk[j]) ELSE lk[j]]
-                   any == \E j \in from..Len(lk) : ~lk[j].ext /\ Len(lk[j].st) > 0
-               IN Res(any, FALSE, new, "promote")
-
-(* tryResolveOverflow (after the GuardByIdentity test, which never fires) *)
-TryResolve(lk, rec) ==
-  LET r1 == IF rec.name = "" THEN FixLookup(lk, rec) ELSE FixSub(lk, rec)
-  IN IF r1.ok \/ r1.crash THEN r1 ELSE FixLookup(lk, rec)
-
-(* well-founded measure: <<lookups not yet promoted, 2 * splittable surplus + subtables without DontShare>>,
-   compared lexicographically; every successful resolution has to decrease it *)
-RECURSIVE SumSeq(_, _)
-SumSeq(f, n) == IF n = 0 THEN 0 ELSE f[n] + SumSeq(f, n - 1)
-Surplus(s) == IF s.k = "fix" \/ Len(s.it) = 0 THEN 0 ELSE Len(s.it) - 1
-SubMeasure(l) == SumSeq([j \in 1..Len(l.st) |-> 2 * Surplus(l.st[j]) + (IF l.st[j].ds THEN 0 ELSE 1)], Len(l.st))
-Measure(lk) == <<SumSeq([i \in 1..Len(lk) |-> IF lk[i].ext THEN 0 ELSE 1], Len(lk)),
-                 SumSeq([i \in 1..Len(lk) |-> SubMeasure(lk[i])], Len(lk))>>
-Less(a, b) == a[1] < b[1] \/ (a[1] = b[1] /\ a[2] < b[2])
+          Limits             \* offset limits record
 
 -----------------------------------------------------------------------------
 (* GraphOf: the writer tree of a lookup list (sizes from ItemSz / HeadSz), with the role of every node so
@@ -158,23 +38,27 @@ AddSub(acc, L, S, s, inExt) ==
       covGlyphs == IF s.k \in {"pair2", "mkb"} THEN [i \in 1..Len(s.cm) |-> s.cm[i][1]] ELSE s.it
       cov == Nd(10000 + Pow2Sum(covGlyphs, 1), 1, <<>>, FALSE, FALSE, FALSE, TRUE)
       a1 == Leaf(acc, cov, Role("item", L, S, IF s.k = "mkb" THEN "MarkCoverage" ELSE "Coverage", None))
+      RECURSIVE Items(_, _, _, _)
+      Items(a, i, code, name) ==
+        IF i > Len(s.it) THEN a
+        ELSE Items(Leaf(a, Nd(code + s.it[i], ItemSz(s.k, s.it[i]), <<>>, FALSE, FALSE, FALSE, FALSE), Role("item", L, S, name, i - 1)), i + 1, code, name)
+      (* a2 = all nodes below the subtable; direct = the subtable's children in item order *)
       a2 == IF s.k = "pair2"
             THEN Leaf(Leaf(a1, Nd(30000 + CmCode(s.cm, 1), 1, <<>>, FALSE, FALSE, FALSE, FALSE), Role("item", L, S, "ClassDef1", None)),
                       Nd(35000, 1, <<>>, FALSE, FALSE, FALSE, FALSE), Role("item", L, S, "ClassDef2", None))
             ELSE IF s.k = "mkb"
-            THEN Leaf(Leaf(Leaf(a1, Nd(10001, 1, <<>>, FALSE, FALSE, FALSE, TRUE), Role("item", L, S, "BaseCoverage", None)),
-                           Nd(40000 + CmCode(s.cm, 1), 1, <<>>, FALSE, FALSE, FALSE, FALSE), Role("item", L, S, "MarkArray", None)),
-                      Nd(45000 + Pow2Sum(s.it, 1), SumSeq([i \in 1..Len(s.it) |-> ItemSz(s.k, s.it[i])], Len(s.it)), <<>>, FALSE, FALSE, FALSE, FALSE),
-                      Role("item", L, S, "BaseArray", None))
-            ELSE IF s.k = "fix" THEN a1
-            ELSE LET RECURSIVE Items(_, _)
-                     Items(a, i) == IF i > Len(s.it) THEN a
-                                    ELSE Items(Leaf(a, Nd(20000 + 100 * kc + s.it[i], ItemSz(s.k, s.it[i]), <<>>, FALSE, FALSE, FALSE, FALSE),
-                                                    Role("item", L, S, IF LigLike(s.k) THEN ItemTable(s.k) ELSE IF s.k = "pair1" THEN "PairSet" ELSE "Value", i - 1)), i + 1)
-                 IN Items(a1, 1)
-      nk == Len(a2.g) - base
-      size == HeadSz(s.k) + (IF s.k \in {"pair2", "fix"} THEN SumSeq([i \in 1..Len(s.it) |-> ItemSz(s.k, s.it[i])], Len(s.it)) ELSE 0)
-      sub == Nd(50000 + 1000 * L + 10 * S, size, Edges(base + 1, nk, 2), FALSE, own, s.k \in {"lig", "alt"}, FALSE)
+            THEN LET b1 == Leaf(Leaf(a1, Nd(10001, 1, <<>>, FALSE, FALSE, FALSE, TRUE), Role("item", L, S, "BaseCoverage", None)),
+                                Nd(40000 + CmCode(s.cm, 1), 1, <<>>, FALSE, FALSE, FALSE, FALSE), Role("item", L, S, "MarkArray", None))
+                     b2 == Items(b1, 1, 46000, "BaseAnchor")                        \* one block of anchors per mark class
+                 IN Leaf(b2, Nd(45000 + Pow2Sum(s.it, 1), 1, Edges(Len(b1.g) + 1, Len(s.it), 2), FALSE, FALSE, FALSE, FALSE),
+                         Role("item", L, S, "BaseArray", None))
+            ELSE IF s.k \in {"fix", "sp2"} THEN a1                               \* records are inline: only the Coverage
+            ELSE Items(a1, 1, 20000 + 100 * kc,
+                       IF LigLike(s.k) THEN ItemTable(s.k) ELSE "PairSet")
+      direct == IF s.k = "mkb" THEN <<base + 1, base + 2, base + 3, Len(a2.g)>>
+                ELSE [i \in 1..(Len(a2.g) - base) |-> base + i]
+      size == HeadSz(s.k) + (IF s.k \in {"pair2", "fix", "sp2"} THEN SumSeq([i \in 1..Len(s.it) |-> ItemSz(s.k, s.it[i])], Len(s.it)) ELSE 0)
+      sub == Nd(50000 + 1000 * L + 10 * S, size, [i \in 1..Len(direct) |-> <<direct[i], 2, 4 + 2 * (i - 1)>>], FALSE, own, s.k \in {"lig", "alt"}, FALSE)
       a3 == Leaf(a2, sub, Role("sub", L, S, "SubTable", S))
   IN IF inExt
      THEN Leaf(a3, Nd(60000 + kc, 1, <<<<Len(a3.g), 4, 4>>>>, TRUE, s.ds, FALSE, FALSE), Role("ext", L, S, "SubTable", S))
@@ -207,6 +91,7 @@ RecordOf(W, P) ==
   IN IF rp.t = "ll" THEN [L |-> rc.L, S |-> None, name |-> "", idx |-> None]
      ELSE IF rp.t = "lk" THEN [L |-> rp.L, S |-> rc.S, name |-> "", idx |-> None]
      ELSE IF rp.t \in {"sub", "ext"} THEN [L |-> rp.L, S |-> rp.S, name |-> rc.name, idx |-> rc.idx]
+     ELSE IF rp.t = "item" THEN [L |-> rp.L, S |-> rp.S, name |-> rp.name \o "." \o rc.name, idx |-> rc.idx]   \* below the subtable level
      ELSE [L |-> None, S |-> None, name |-> rc.name, idx |-> None]
 PackLookups(lk, mode) ==
   LET W == TLCEval(GraphOf(lk))
@@ -221,34 +106,37 @@ VARIABLES lookups, rstate, pc, cur, last, outcome, hbfailed,
 rvars == <<lookups, rstate, pc, cur, last, outcome, hbfailed, attempts>>
 NoRec == [L |-> None, S |-> None, name |-> "", idx |-> None]
 
-RInit(lk) == /\ lookups = lk /\ rstate = (IF HBMode = "on" THEN "HB_FT" ELSE "PURE_FT")
-             /\ pc = "attempt" /\ cur = NoRec /\ last = NoRec /\ outcome = "none" /\ hbfailed = FALSE /\ attempts = 0
+(* hbOn: USE_HARFBUZZ_REPACKER in {None, True} with uharfbuzz importable, for GSUB / GPOS *)
+RInit(lk, hbOn) == /\ lookups = lk /\ rstate = (IF hbOn THEN "HB_FT" ELSE "PURE_FT")
+                   /\ pc = "attempt" /\ cur = NoRec /\ last = NoRec /\ outcome = "none" /\ hbfailed = FALSE /\ attempts = 0
 
-(* one pass through the try block.  In HB_FT the repacker is a black box: it may succeed (Return) or fail,
-   in which case the table interned with cross-extension sharing is packed by getAllData (mode "hbfb");
-   HBAtLeastFT: it does not fail when the pure-Python packing succeeds. *)
-AttemptFT ==
+(* one pass through the try block with packing outcome p = [res, rec, clause] *)
+AttemptFTWith(p) ==
   /\ pc = "attempt" /\ rstate \in {"PURE_FT", "FT_FALLBACK"}
-  /\ LET p == PackLookups(lookups, "ft") IN
-       IF p.res = "ok"
-       THEN IF rstate = "PURE_FT"
-            THEN /\ pc' = "done" /\ outcome' = (IF p.clause = "ok" THEN "return" ELSE "return-invalid") /\ UNCHANGED <<rstate, cur>>
-            ELSE /\ rstate' = "HB_FT" /\ UNCHANGED <<pc, outcome, cur>>                   \* BackToHB
-       ELSE IF p.res = "overflow" THEN /\ pc' = "overflowed" /\ cur' = p.rec /\ UNCHANGED <<rstate, outcome>>
-       ELSE /\ pc' = "done" /\ outcome' = "crash" /\ UNCHANGED <<rstate, cur>>
+  /\ IF p.res = "ok"
+     THEN IF rstate = "PURE_FT"
+          THEN /\ pc' = "done" /\ outcome' = (IF p.clause = "ok" THEN "return" ELSE "return-invalid") /\ UNCHANGED <<rstate, cur>>   \* Return
+          ELSE /\ rstate' = "HB_FT" /\ UNCHANGED <<pc, outcome, cur>>                                                           \* BackToHB
+     ELSE IF p.res = "overflow" THEN /\ pc' = "overflowed" /\ cur' = p.rec /\ UNCHANGED <<rstate, outcome>>                      \* Overflow(rec)
+     ELSE /\ pc' = "done" /\ outcome' = "crash" /\ UNCHANGED <<rstate, cur>>
   /\ attempts' = attempts + 1
   /\ UNCHANGED <<lookups, last, hbfailed>>
-AttemptHB ==
+(* In HB_FT the repacker is a black box: it succeeds (Return), or it fails and the table, interned with
+   cross-extension sharing, is packed by getAllData(remove_duplicate=False) with outcome p (mode "hbfb") *)
+AttemptHBWith(failed, p) ==
   /\ pc = "attempt" /\ rstate = "HB_FT"
-  /\ \/ /\ pc' = "done" /\ outcome' = "return" /\ UNCHANGED <<cur, hbfailed>>               \* hb.repack succeeded
-     \/ /\ PackLookups(lookups, "ft").res # "ok"                                             \* HBAtLeastFT
-        /\ hbfailed' = TRUE
-        /\ LET p == PackLookups(lookups, "hbfb") IN
-             IF p.res = "ok" THEN /\ pc' = "done" /\ outcome' = (IF p.clause = "ok" THEN "return" ELSE "return-invalid") /\ UNCHANGED cur
+  /\ IF ~failed THEN /\ pc' = "done" /\ outcome' = "return" /\ UNCHANGED <<cur, hbfailed>>
+     ELSE /\ hbfailed' = TRUE
+          /\ IF p.res = "ok" THEN /\ pc' = "done" /\ outcome' = (IF p.clause = "ok" THEN "return" ELSE "return-invalid") /\ UNCHANGED cur
              ELSE IF p.res = "overflow" THEN /\ pc' = "overflowed" /\ cur' = p.rec /\ UNCHANGED outcome
              ELSE /\ pc' = "done" /\ outcome' = "crash" /\ UNCHANGED cur
   /\ attempts' = attempts + 1
   /\ UNCHANGED <<lookups, last, rstate>>
+
+AttemptFT == AttemptFTWith(PackLookups(lookups, "ft"))
+AttemptHB == \/ AttemptHBWith(FALSE, [res |-> "ok", rec |-> NoRec, clause |-> "ok"])
+             \/ /\ PackLookups(lookups, "ft").res # "ok"                                   \* HBAtLeastFT
+                /\ AttemptHBWith(TRUE, PackLookups(lookups, "hbfb"))
 
 (* the except block: tryResolveOverflow, then continue / fall back / re-raise *)
 SameRecordTwice == FALSE                                   \* GuardByIdentity
